@@ -29,10 +29,20 @@ class BrownianHooks(Hooks):
         self.warns = 0
         self.ordering = None     # optional representative values of the scalar symbols (one ordering of the times)
 
+    _MIRROR = {ast.Lt: ast.Gt, ast.Gt: ast.Lt, ast.LtE: ast.GtE, ast.GtE: ast.LtE}
+
     def decide(self, interp, test, env, fi):
+        if isinstance(test, ast.UnaryOp) and isinstance(test.op, ast.Not):
+            d = self.decide(interp, test.operand, env, fi)
+            return d if d is NotImplemented else (not d)
         text = ast.unparse(test)
         if text in self.decisions:
             return self.decisions[text]
+        if isinstance(test, ast.Compare) and len(test.ops) == 1 and type(test.ops[0]) in self._MIRROR:
+            m = ast.Compare(left=test.comparators[0], ops=[self._MIRROR[type(test.ops[0])]()], comparators=[test.left])
+            mt = ast.unparse(m)
+            if mt in self.decisions:
+                return self.decisions[mt]
         if self.ordering:
             from ..interp import decide_by_model
             return decide_by_model(interp, test, env, fi, self.ordering)
